@@ -9,3 +9,5 @@ import "golang.org/x/tools/go/ssa"
 func verifCountEquivalence() {}
 
 func verifTraceEquivalence(z *Zipper, a, b ssa.Instruction, eq bool) {}
+
+func verifBeforeEnforce(z *Zipper) {}
